@@ -102,3 +102,7 @@ pub open spec fn fee_step_live(b: BidOrderV3, g: int) -> bool {
         &&& rem_fee(b) >= prorata(f, n, q)
     }
 }
+
+pub open spec fn in_addrs(l: Seq<crate::shim::flat::Addr>, s: Seq<char>) -> bool { exists|i: int| 0 <= i < l.len() && (#[trigger] l[i]).s@ == s }
+pub open spec fn in_strs(l: Seq<String>, s: Seq<char>) -> bool { exists|i: int| 0 <= i < l.len() && (#[trigger] l[i])@ == s }
+pub open spec fn in_names(l: Seq<crate::shim::flat::ProvAttribute>, s: Seq<char>) -> bool { exists|i: int| 0 <= i < l.len() && (#[trigger] l[i]).name@ == s }
